@@ -25,6 +25,26 @@ PROPS = {
                 'non-trivial = not refused at position 0 with no event',
         'assumptions': ASSUME_COMMON,
     },
+    'C16': {
+        'lean': ['Purr.Props.C16'],
+        'suites': [
+            {'name': 'val', 'requests': r'DEB ', 'exhaustive': False},
+        ],
+        'rule': 'every bracket symbol (127) x hydrogen count (absent, 0-9) x bond-order sum (all sums that fit a byte for the 21 symbols '
+                'that can be debracketed or have valence targets, 0-8 and the byte limit for the rest; thorough: all sums for all symbols) '
+                'x presence of isotope / configuration / charge / map; unbracketed kinds; random bracket atoms. distinct = distinct request lines',
+        'assumptions': ASSUME_COMMON,
+    },
+    'C17': {
+        'lean': ['Purr.Props.C17'],
+        'suites': [
+            {'name': 'val', 'requests': r'VAL ', 'exhaustive': False},
+        ],
+        'rule': 'bracket atoms: symbol x hydrogen count x charge x bond-order sum 0-12 and 20..300 (beyond 255); organic symbols x sums 0-600 '
+                'realised as single, double and mixed bond lists; every bond kind; random kinds with random bond multisets up to degree 400. '
+                'distinct = distinct request lines',
+        'assumptions': ASSUME_COMMON,
+    },
     'C18': {
         'lean': ['Purr.Props.C18'],
         'suites': [
